@@ -21,8 +21,11 @@
                   decoded tail becomes t.  When the group starts on deleted records (slots freed
                   by an earlier delete at the END of the directory) the 8.3 record is decoded on
                   its own (short name only) before the long-name records are all there: two MTail
-     MClean id    _clean_entries(): compaction -- ONE step here (partial: see ProofsClean.v for
-                  the record-by-record order)
+     MClean id    _clean_entries(): compaction.  ONE step in [micro]; FatCrash/Clean.v spells it
+                  out record by record ([micro_x]: before each MClean the decoded views the
+                  directory goes through, as MView steps; ProofsClean.v: same result, and what a
+                  reader can see in between)
+     MView id l   (only in micro_x) the decoded records of directory id are now l
      MReg c / MForget c   ghost steps (no store): directory c becomes reachable (mkdir: its entry
                   was just stored) / unreachable (rmdir: its entry was just deleted)
      MDot c v, MDotDot c v   the '.' / '..' records of directory c
@@ -43,6 +46,7 @@ Inductive mstep :=
 | MDel (id : N) (key : name)
 | MTail (id : N) (keep : nat) (tail : list item)
 | MClean (id : N)
+| MView (id : N) (l : list item)
 | MReg (c : N)
 | MDot (c v : N)
 | MDotDot (c v : N)
@@ -78,6 +82,7 @@ Definition apply_m (s : vol) (m : mstep) : vol :=
   | MDel id key => set_items s id (del_item upper key (items_of s id))
   | MTail id keep tail => set_items s id (firstn keep (items_of s id) ++ tail)
   | MClean id => set_items s id (filter is_live (items_of s id))
+  | MView id l => set_items s id l
   | MReg c => reg_dir s c
   | MDot c v => set_dot s c v
   | MDotDot c v => set_dotdot s c v
